@@ -4,6 +4,7 @@ multi-client histories inside one process and prints one JSON line per assertion
 import hashlib
 import json
 import os
+import re
 import shutil
 import subprocess
 import tempfile
@@ -28,13 +29,14 @@ def support_ns(cfg):
 
 def value_type(data):
     """The value type behind an extern's C++ data string ('const verif::T4&' -> 'verif::T4')."""
-    return data.replace('const ', '').replace('&', '').strip()
+    return data.replace('const ', '').replace('struct ', '').replace('&', '').strip()
 
 
 def all_data_types(facts):
     out = []
     for dec in facts.decls:
-        if dec.kind == 'extern' and 'verif::' in dec.node[2] and value_type(dec.node[2]) not in out:
+        # (the class templates Pair / Fn / Num of the exotic spellings are defined in verif_probe.hh)
+        if dec.kind == 'extern' and re.fullmatch(r'verif::\w+', value_type(dec.node[2])) and value_type(dec.node[2]) not in out:
             out.append(value_type(dec.node[2]))
     return out
 
@@ -200,6 +202,19 @@ def gen_driver(facts, cfg, include_source=True):
             w(f'  if (skip != idx) {pc.record_side(ev)} = {recorder(pc.tag(ev), ev)}; ++idx;')
     if mcport and not any(pc.mc for pc, _ in events):
         pass
+    w('}')
+    w('// bind (recorder) or unbind (empty function) the record side of the k-th binding only')
+    w('static void set_binding(Shell& sh_, Comp& comp_, dzn::pump& pump_, int k, int nclients, bool bind_) {')
+    w('  int idx = 0; (void)idx; (void)nclients; (void)sh_; (void)comp_; (void)pump_; (void)bind_;')
+    for pc, ev in events:
+        if pc.mc and ev.direction == 'out':
+            w('  for (int ci = 0; ci < nclients; ++ci) { const std::string client_ = CLIENTS[g_order[ci]];')
+            w(f'    if (k == idx) {{ if (bind_) {pc.record_side(ev)} = ' +
+              recorder(pc.tag(ev) + '@', ev, ', client_').replace(f'H.hit("{pc.tag(ev)}@")', f'H.hit("{pc.tag(ev)}@" + client_)') +
+              f'; else {pc.record_side(ev)} = nullptr; }}')
+            w('    ++idx; }')
+        else:
+            w(f'  if (k == idx) {{ if (bind_) {pc.record_side(ev)} = {recorder(pc.tag(ev), ev)}; else {pc.record_side(ev)} = nullptr; }} ++idx;')
     w('}')
     w('static int count_bindings(int nclients) { int n = 0; (void)nclients;')
     for pc, ev in events:
@@ -391,6 +406,38 @@ def gen_driver(facts, cfg, include_source=True):
         w('        verif::emit("C10", "registered-client-still-accessible", "clients=" + std::to_string(ncl), !known, what); }')
     w('    }')
     w('  }')
+    # C10 histories: every sequence of unbind(k) / bind(k) / FinalConstruct over three representative bindings (first, last,
+    # a client's out-event or the middle one) to depth VF_C10_DEPTH, each replayed on a fresh shell; reference state = set
+    # of currently unbound bindings: until it has succeeded once, final construction fails iff that set is not empty
+    ncl_h = 2 if mcport else 0
+    w('  { const int ncl = ' + str(ncl_h) + '; const int n = count_bindings(ncl); std::vector<int> K;')
+    w('    for (int k : {0, n - 1}) if (k >= 0 && k < n && std::find(K.begin(), K.end(), k) == K.end()) K.push_back(k);')
+    w('    { int extra = n / 2; for (int k = 0; k < n; ++k) if (binding_name(k, ncl).find("@") != std::string::npos) { extra = k; break; }')
+    w('      if (n > 0 && std::find(K.begin(), K.end(), extra) == K.end()) K.push_back(extra); }')
+    w('    const int DEPTH = getenv("VF_C10_DEPTH") ? atoi(getenv("VF_C10_DEPTH")) : 5; long histories = 0, failures[2] = {0, 0}; std::string first_fail[2];')
+    w('    // op: 0 = FinalConstruct, 1 + 2*i = unbind K[i], 2 + 2*i = bind K[i]')
+    w('    auto opname = [&](int op) { return op == 0 ? std::string("FinalConstruct") : std::string(op % 2 ? "unbind(" : "bind(") + binding_name(K[(op - 1) / 2], ncl) + ")"; };')
+    w('    std::vector<std::vector<int>> level{{}};')
+    w('    for (int d = 1; d <= DEPTH && !K.empty(); ++d) { std::vector<std::vector<int>> next;')
+    w('      for (auto& h : level) { std::set<int> unbound; for (int op : h) { if (op == 0) continue; int k = K[(op - 1) / 2]; if (op % 2) unbound.insert(k); else unbound.erase(k); }')
+    w('        for (int op = 0; op <= 2 * (int)K.size(); ++op) {')
+    w('          if (op > 0) { bool is_unbound = unbound.count(K[(op - 1) / 2]) > 0; if ((op % 2 == 1) == is_unbound) continue; }   // skip no-ops')
+    w('          auto hh = h; hh.push_back(op);')
+    w('          if (op != 0) { if (d < DEPTH) next.push_back(hh); continue; }')
+    w('          // replay hh on a fresh shell; judge every FinalConstruct until the first one that is expected to succeed')
+    w('          ++histories; Fix fx; bind_all(*fx.sh, *fx.comp, *fx.pump, -1, ncl); std::set<int> ub; bool stop = false; std::string trace;')
+    w('          for (size_t i = 0; i < hh.size() && !stop; ++i) { int o = hh[i]; trace += opname(o) + " ";')
+    w('            if (o == 0) { std::string what; bool thrown = throws([&]{ fx.sh->FinalConstruct(&parent); }, what);')
+    w('              bool expect_throw = !ub.empty();')
+    w('              if (thrown != expect_throw || (!thrown && fx.comp->dzn_meta.parent != &parent)) { int kind = thrown ? 1 : 0; ++failures[kind]; if (first_fail[kind].empty()) first_fail[kind] = "[" + trace + "] final construction " + (thrown ? "failed (" + what + ")" : "returned") + " with " + std::to_string(ub.size()) + " binding(s) unbound"; stop = true; }')
+    w('              if (!expect_throw) stop = true; }')
+    w('            else { int k = K[(o - 1) / 2]; set_binding(*fx.sh, *fx.comp, *fx.pump, k, ncl, o % 2 == 0); if (o % 2) ub.insert(k); else ub.erase(k); } }')
+    w('          if (!unbound.empty() && d < DEPTH) next.push_back(hh);   // a failed final construction may be followed by more')
+    w('        } }')
+    w('      level.swap(next); }')
+    w('    verif::emit("C10", "bind-unbind-histories", "never-returns-with-an-event-unbound/clients=" + std::to_string(ncl), failures[0] == 0, "histories=" + std::to_string(histories) + " failures=" + std::to_string(failures[0]) + " " + first_fail[0]);')
+    w('    verif::emit("C10", "bind-unbind-histories", "succeeds-once-everything-is-bound/clients=" + std::to_string(ncl), failures[1] == 0, "histories=" + std::to_string(histories) + " failures=" + std::to_string(failures[1]) + " " + first_fail[1]);')
+    w('  }')
     if mcport:
         out.extend(gen_c04(facts, cfg, mcport, events))
     w('  verif::emit("LAB", "done", "main", true, "");')
@@ -577,38 +624,54 @@ def gen_c04(facts, cfg, mcport, events):
         w(f'        verif::emit("C04", "out-event-to-holder", "{oev.name}", to_holder_, "hits=" + H.joined());')
         w(f'        verif::emit("C01", "route", "{mcport.tag(oev)}@holder", to_holder_, "after a granted claim by AB: hits=" + H.joined()); }}')
     w('    }')
-    # (5) size: many clients with long identifiers that share a long prefix and end in a number ("...unit10" sorts
-    #     before "...unit2"); ALL are registered first, the returned handles are kept and only then wired and used
+    # (5) size + identifier shapes + registration orders: many clients, ALL registered first, the returned handles are kept and
+    #     only then wired and used. Families: long identifiers that share a long prefix and end in a number ("...unit10"
+    #     sorts before "...unit2"); short identifiers mixing numeric strings of different lengths with alphanumeric ones that
+    #     begin with a digit and with case variants. Orders: as listed, reversed, ascending, descending, zigzag, rotated;
+    #     and (multi-client base point only) EVERY permutation of eight short identifiers.
     oev0 = outs[0]
-    w('    for (int N : {5, 8, 9, 12, 17, 33}) {')
+    w(f'    using Handle = decltype(std::declval<Shell&>().ProvidesMultiClient{p.cap}(std::string()));')
+    w('    auto many = [&](const std::vector<std::string>& ids, bool full_) -> std::string {')
+    w('      const int N = (int)ids.size(); std::string problem;')
     w('      Fix fx; Shell& sh_ = *fx.sh; Comp& comp_ = *fx.comp; dzn::pump& pump_ = *fx.pump; bind_all(sh_, comp_, pump_, -1, 0);')
-    w('      std::vector<std::string> ids; for (int i = 0; i < N; ++i) ids.push_back("plant.hall2.line7.station12.operatorPanel.unit" + std::to_string(i));')
-    w(f'      using Handle = decltype(sh_.ProvidesMultiClient{p.cap}(std::string()));')
     w(f'      std::vector<Handle> handles; for (auto& id_ : ids) handles.push_back(sh_.ProvidesMultiClient{p.cap}(id_));')
-    w('      std::vector<int> got(N, 0); std::string problem;')
+    w('      std::vector<int> got(N, 0);')
     w('      for (int i = 0; i < N; ++i) {')
     for oev in outs:
         w(f'        handles[i].port.out.{oev.name} = [&got, i]{handler_sig(oev)} {{ ' + ('got[i]++; ' if oev.name == oev0.name else '') + '};')
     w('      }')
     w('      std::string what; bool fc_throws = throws([&]{ sh_.FinalConstruct(&parent); }, what);')
-    w('      if (fc_throws) problem += "FinalConstruct throws although every client is wired: " + what + "; ";')
+    w('      if (fc_throws) return "FinalConstruct throws although every client is wired: " + what + "; ";')
     w(f'      comp_.{p.name}.in.{claim.name} = [&]{handler_sig(claim)} {{ ' +
       ' '.join(f'{f[0]} = {value_type(f[1])}({1000 + IN_VALUES[i]});' for i, f in enumerate(claim.formals) if f[2] != 'in') +
       ' return FIELDS[GRANT]; };')
-    w('      if (!fc_throws) for (int i : {0, N - 1, N / 2, 1, N - 2, 2, 10 % N}) {')
+    w('      std::vector<int> who; if (full_ || N <= 20) { for (int i = 0; i < N; ++i) who.push_back(i); } else who = {0, N - 1, N / 2, 1, N - 2, 2, 10 % N};')
+    w('      for (int i : who) {')
     w('        std::vector<int> before = got;')
     w('        { ' + args_decl(claim) + f' auto r_ = handles[i].port.in.{claim.name}({args_call(claim)}); if (!(r_ == FIELDS[GRANT])) problem += "claim reply lost; "; }}')
     w('        { ' + args_decl(oev0) + f' comp_.{p.name}.out.{oev0.name}({args_call(oev0)}); }}')
-    w('        for (int j = 0; j < N; ++j) if (got[j] != before[j] + (j == i ? 1 : 0)) { problem += "after a granted claim by client " + std::to_string(i) + " the out-event count of client " + std::to_string(j) + " changed by " + std::to_string(got[j] - before[j]) + "; "; break; }')
+    w('        for (int j = 0; j < N; ++j) if (got[j] != before[j] + (j == i ? 1 : 0)) { problem += "after a granted claim by client " + ids[i] + " the out-event count of client " + ids[j] + " changed by " + std::to_string(got[j] - before[j]) + "; "; break; }')
     w('        { ' + args_decl(release) + f' handles[i].port.in.{release.name}({args_call(release)}); }}')
     w('        before = got; { ' + args_decl(oev0) + f' comp_.{p.name}.out.{oev0.name}({args_call(oev0)}); }}')
-    w('        if (got != before) problem += "out-event delivered after the release of client " + std::to_string(i) + "; ";')
+    w('        if (got != before) problem += "out-event delivered after the release of client " + ids[i] + "; ";')
+    w('        if (!problem.empty()) break;')
     w('      }')
     w(f'      {{ const Shell& csh_ = sh_; auto known_ = csh_.Get{p.cap}ClientIdentifiers(); std::set<std::string> a_(known_.begin(), known_.end()), b_(ids.begin(), ids.end()); if (a_ != b_ || (int)known_.size() != N) problem += "client identifiers reported: " + std::to_string(known_.size()) + "; "; }}')
-    w(f'      {{ std::string w2; if (!fc_throws && !throws([&]{{ (void)sh_.ProvidesMultiClient{p.cap}(ids[0] + "x"); }}, w2)) problem += "late registration accepted; "; }}')
+    w(f'      {{ std::string w2; if (!throws([&]{{ (void)sh_.ProvidesMultiClient{p.cap}(ids[0] + "x"); }}, w2)) problem += "late registration accepted; "; }}')
+    w('      return problem; };')
+    w('    auto orders_of = [](const std::vector<std::string>& ids, bool all_) { std::vector<std::vector<std::string>> o; o.push_back(ids);')
+    w('      { auto r = ids; std::reverse(r.begin(), r.end()); o.push_back(r); }')
+    w('      if (all_) { auto a = ids; std::sort(a.begin(), a.end()); o.push_back(a); std::reverse(a.begin(), a.end()); o.push_back(a);')
+    w('        std::vector<std::string> z; for (size_t i = 0, j = ids.size(); i < j; ) { z.push_back(ids[i++]); if (i < j) z.push_back(ids[--j]); } o.push_back(z);')
+    w('        auto t = ids; std::rotate(t.begin(), t.begin() + t.size() / 3, t.end()); o.push_back(t); }')
+    w('      return o; };')
+    w('    static const std::vector<std::string> SHORT_IDS = {"2", "9", "10", "1", "1b", "3a", "7", "8", "10a", "01", "100", "a1", "A1", "1B", "b", "0", "00", "1a", "20", "2a"};')
+    w('    for (int N : {5, 8, 9, 12, 17, 33}) {')
+    w('      std::vector<std::string> ids; for (int i = 0; i < N; ++i) ids.push_back("plant.hall2.line7.station12.operatorPanel.unit" + std::to_string(i));')
+    w('      std::string problem; for (auto& o : orders_of(ids, false)) { problem = many(o, false); if (!problem.empty()) { problem = "registration order " + o[0] + ", " + o[1] + ", ...: " + problem; break; } }')
     w('      verif::emit("C04", "many-clients", "clients=" + std::to_string(N), problem.empty(), problem);')
     w(f'      verif::emit("C01", "route", "{mcport.tag(oev0)}@many-clients=" + std::to_string(N), problem.empty(), problem);')
-    w('      verif::emit("C10", "fully-bound", "many-clients=" + std::to_string(N), !fc_throws, what);')
+    w('      verif::emit("C10", "fully-bound", "many-clients=" + std::to_string(N), problem.find("FinalConstruct throws") == std::string::npos, problem);')
     w('      // ... and with ONE out-event of ONE of the many clients left unbound final construction must fail')
     w('      for (int miss : {N - 1, 1}) {')
     w('        Fix fy; Shell& sy_ = *fy.sh; bind_all(sy_, *fy.comp, *fy.pump, -1, 0);')
@@ -622,6 +685,19 @@ def gen_c04(facts, cfg, mcport, events):
     w('        verif::emit("C10", "unbound-detected", "many-clients=" + std::to_string(N) + "/client " + std::to_string(miss), thrown, w3);')
     w('      }')
     w('    }')
+    w('    for (int N : {8, 12, 20}) {')
+    w('      std::vector<std::string> ids(SHORT_IDS.begin(), SHORT_IDS.begin() + N); std::string problem; int norders = 0;')
+    w('      for (auto& o : orders_of(ids, true)) { ++norders; problem = many(o, true); if (!problem.empty()) { std::string os_; for (auto& x : o) os_ += x + " "; problem = "registration order [" + os_ + "]: " + problem; break; } }')
+    w('      verif::emit("C04", "many-clients-short-identifiers", "clients=" + std::to_string(N), problem.empty(), "orders=" + std::to_string(norders) + " " + problem);')
+    w('      verif::emit("C10", "fully-bound", "many-clients-short-identifiers=" + std::to_string(N), problem.find("FinalConstruct throws") == std::string::npos, problem);')
+    w('    }')
+    if cfg.get('permall'):
+        w('    { // EVERY registration order of six (quick: 720 shells) / eight (thorough: 40 320 shells) short identifiers')
+        w('      const int NP = getenv("VF_C04_PERMALL") ? atoi(getenv("VF_C04_PERMALL")) : 6;')
+        w('      std::vector<std::string> ids(SHORT_IDS.begin() + 2, SHORT_IDS.begin() + 2 + NP); std::sort(ids.begin(), ids.end()); std::string problem; long norders = 0;')
+        w('      do { ++norders; problem = many(ids, true); if (!problem.empty()) { std::string os_; for (auto& x : ids) os_ += x + " "; problem = "registration order [" + os_ + "]: " + problem; break; } } while (std::next_permutation(ids.begin(), ids.end()));')
+        w('      verif::emit("C04", "many-clients-all-registration-orders", "clients=" + std::to_string(NP), problem.empty(), "orders=" + std::to_string(norders) + " " + problem);')
+        w('    }')
     w('  }')
     return out
 
@@ -632,6 +708,8 @@ def gen_c04(facts, cfg, mcport, events):
 
 def make_case(pt):
     model, cfg = M.build_model(pt)
+    if M.point_id(pt) == 'mc=p0:0':
+        cfg['permall'] = True      # the multi-client base point also tries every registration order of eight clients
     return {'id': M.point_id(pt), 'point': pt, 'model': model, 'cfg': cfg}
 
 
@@ -761,7 +839,8 @@ def run_case(case, env_extra=None):
     except Exception as exc:  # pylint: disable=broad-except
         return {'compiled': False, 'compile_error': '', 'generation_error': f'{type(exc).__name__}: {exc}',
                 'exit': None, 'lines': [], 'stderr': ''}
-    return run_sources(src, env_extra)
+    release = case.get('point', {}).get('cxxflags', 'debug') == 'release'
+    return run_sources(src, env_extra, extra_flags=('-O2', '-DNDEBUG') if release else ())
 
 
 def check_toolchain():
